@@ -5,10 +5,13 @@ import (
 	"crypto"
 	"crypto/rand"
 	"crypto/rsa"
+	_ "crypto/sha1"
 	"crypto/sha256"
+	_ "crypto/sha512"
 	"crypto/x509"
 	"crypto/x509/pkix"
 	"encoding/binary"
+	"encoding/pem"
 	"fmt"
 	"math/big"
 	"os"
@@ -468,6 +471,45 @@ func forgeries(c *Ctx, s p7Seed, emit func(class string, b []byte)) {
 					eci.kids[0].leaf = []byte{0x2a, 0x86, 0x48, 0x86, 0xf7, 0x0d, 0x01, 0x07, 0x01}
 				}
 				return true
+			})
+		}
+	}
+	// the encapsulated content replaced by - or, for a detached blob, attached as - an element whose VALUE is empty
+	// (an empty SEQUENCE / OCTET STRING / SET, a NULL), attributes and signature kept. The blob then encapsulates
+	// content: the signed message digest has to be the SHA-256 of its (zero) contents octets, which the digest of no
+	// genuine signature is. Whether content is present is a matter of the element being there, not of its length.
+	for _, el := range []struct {
+		name string
+		tag  byte
+	}{{"sequence", 0x30}, {"octet-string", 0x04}, {"null", 0x05}, {"set", 0x31}} {
+		el := el
+		edit("forge-empty-content/"+el.name, func(r *derNode) bool {
+			sd := sdOf(r)
+			if len(sd.kids) < 4 || !sd.kids[2].compound || len(sd.kids[2].kids) < 1 || sd.kids[2].kids[0].tag != 0x06 {
+				return false
+			}
+			eci := sd.kids[2]
+			eci.kids = []*derNode{eci.kids[0], {tag: 0xa0, compound: true, kids: []*derNode{{tag: el.tag, compound: el.tag&0x20 != 0}}}}
+			return true
+		})
+	}
+	// the signer entry re-made by the SIGNER'S OWN key under another digest algorithm: digestAlgorithm names SHA-1 /
+	// SHA-384 / SHA-512, the message digest is that hash of the content, the signature an RSA PKCS#1 v1.5 signature
+	// with that hash over the attributes (what openssl cms -md sha1|sha384|sha512 or a tool with another default
+	// emits). Key, identity, content and attributes are all consistent - but the entry carries no RSA-SHA256 signature
+	// and its message digest is not the SHA-256 of the content, which is what the statement ties success to. Also:
+	// the label and the hash really used disagree (named SHA-256 / signed with SHA-512 and the reverse).
+	if rkey, _ := keyOfCert(c, s.right); rkey != nil {
+		for _, v := range []struct {
+			name          string
+			named, signed crypto.Hash
+		}{
+			{"sha1", crypto.SHA1, crypto.SHA1}, {"sha384", crypto.SHA384, crypto.SHA384}, {"sha512", crypto.SHA512, crypto.SHA512},
+			{"named-sha256-made-with-sha512", crypto.SHA256, crypto.SHA512}, {"named-sha512-made-with-sha256-digest-sha512", crypto.SHA512, crypto.SHA256},
+		} {
+			v := v
+			edit("forge-resigned-under-hash/"+v.name, func(r *derNode) bool {
+				return p7ResignUnderHash(sdOf(r), rkey, v.named, v.signed)
 			})
 		}
 	}
@@ -965,6 +1007,278 @@ func p7ResignBy(sd *derNode, key *rsa.PrivateKey, cert *x509.Certificate) bool {
 	return true
 }
 
+// p7ResignUnderHash re-makes the first signer entry with the same key and identity under other digest algorithms:
+// digestAlgorithm (of the entry and of the SignedData) := named; messageDigest := the `named` hash of the
+// encapsulated content (of placeholder octets when the blob is detached: nothing compares it then); signature :=
+// RSA PKCS#1 v1.5 with the hash `signed` over the DER SET of the attributes
+func p7ResignUnderHash(sd *derNode, key *rsa.PrivateKey, named, signed crypto.Hash) bool {
+	if len(sd.kids) < 4 {
+		return false
+	}
+	set := sd.kids[len(sd.kids)-1]
+	if set.tag != 0x31 || len(set.kids) != 1 {
+		return false
+	}
+	si := set.kids[0]
+	at := p7SignedAttrs(si)
+	if at == nil || len(si.kids) < 5 || si.kids[2].tag != 0x30 || len(si.kids[2].kids) < 1 || si.kids[2].kids[0].tag != 0x06 {
+		return false
+	}
+	oid := mustMarshal(cmsHashOIDs[named], "")[2:]
+	si.kids[2].kids[0].leaf = append([]byte{}, oid...)
+	if da := sd.kids[1]; da.tag == 0x31 && len(da.kids) == 1 && len(da.kids[0].kids) >= 1 && da.kids[0].kids[0].tag == 0x06 {
+		da.kids[0].kids[0].leaf = append([]byte{}, oid...)
+	}
+	body := []byte("the content of a detached signature is not in the blob")
+	if len(sd.kids[2].kids) >= 2 && len(sd.kids[2].kids[1].kids) >= 1 {
+		el := sd.kids[2].kids[1].kids[0]
+		enc := el.encode()
+		body = enc[len(enc)-len(derBody(el)):]
+	}
+	if !p7SetMessageDigest(si, hashOf(named, body)) {
+		return false
+	}
+	tbs := at.encode()
+	tbs[0] = 0x31
+	sig, err := rsa.SignPKCS1v15(rand.Reader, key, signed, hashOf(signed, tbs))
+	if err != nil {
+		return false
+	}
+	return p7SetSignature(si, sig)
+}
+
+// derBody: the contents octets of a node
+func derBody(n *derNode) []byte {
+	if !n.compound {
+		return n.leaf
+	}
+	var body []byte
+	for _, k := range n.kids {
+		body = append(body, k.encode()...)
+	}
+	return body
+}
+
+// p7SetSignature overwrites the signature value (the last OCTET STRING child) of a signer entry
+func p7SetSignature(si *derNode, sig []byte) bool {
+	for i := len(si.kids) - 1; i >= 0; i-- {
+		if si.kids[i].tag == 0x04 && !si.kids[i].compound {
+			si.kids[i].leaf = append([]byte{}, sig...)
+			return true
+		}
+	}
+	return false
+}
+
+// ---- signature VALUES: what the RSA block holds ----
+
+// lowExponentKey: an RSA key with a small public exponent (3: still found in firmware and older certificates),
+// cached with the other pool keys
+func lowExponentKey(c *Ctx, bits, e int) *rsa.PrivateKey {
+	keyMu.Lock()
+	defer keyMu.Unlock()
+	name := fmt.Sprintf("rsa%d-e%d.pem", bits, e)
+	if k, ok := keyCache[name]; ok {
+		return k
+	}
+	dir := filepath.Join(c.VerifDir, ".build", "keys")
+	os.MkdirAll(dir, 0o755)
+	p := filepath.Join(dir, name)
+	load := func() *rsa.PrivateKey {
+		if b, err := os.ReadFile(p); err == nil {
+			if blk, _ := pem.Decode(b); blk != nil {
+				if k, err := x509.ParsePKCS1PrivateKey(blk.Bytes); err == nil && k.E == e {
+					return k
+				}
+			}
+		}
+		return nil
+	}
+	if k := load(); k != nil {
+		keyCache[name] = k
+		return k
+	}
+	one, be := big.NewInt(1), big.NewInt(int64(e))
+	var k *rsa.PrivateKey
+	for k == nil {
+		pp, err1 := rand.Prime(rand.Reader, (bits+1)/2)
+		q, err2 := rand.Prime(rand.Reader, bits/2)
+		if err1 != nil || err2 != nil {
+			panic(fmt.Sprint(err1, err2))
+		}
+		n := new(big.Int).Mul(pp, q)
+		if pp.Cmp(q) == 0 || n.BitLen() != bits {
+			continue
+		}
+		phi := new(big.Int).Mul(new(big.Int).Sub(pp, one), new(big.Int).Sub(q, one))
+		d := new(big.Int).ModInverse(be, phi)
+		if d == nil {
+			continue
+		}
+		cand := &rsa.PrivateKey{PublicKey: rsa.PublicKey{N: n, E: e}, D: d, Primes: []*big.Int{pp, q}}
+		cand.Precompute()
+		if cand.Validate() == nil {
+			k = cand
+		}
+	}
+	tmp := fmt.Sprintf("%s.%d.tmp", p, os.Getpid())
+	os.WriteFile(tmp, pem.EncodeToMemory(&pem.Block{Type: "RSA PRIVATE KEY", Bytes: x509.MarshalPKCS1PrivateKey(k)}), 0o600)
+	os.Link(tmp, p)
+	os.Remove(tmp)
+	if kk := load(); kk != nil {
+		k = kk
+	}
+	keyCache[name] = k
+	return k
+}
+
+// intRoot: the smallest s with s^e >= t
+func intRoot(t *big.Int, e int) *big.Int {
+	lo, hi := big.NewInt(0), new(big.Int).Lsh(big.NewInt(1), uint(t.BitLen()/e+1))
+	be := big.NewInt(int64(e))
+	for lo.Cmp(hi) < 0 {
+		mid := new(big.Int).Rsh(new(big.Int).Add(lo, hi), 1)
+		if new(big.Int).Exp(mid, be, nil).Cmp(t) >= 0 {
+			hi = mid
+		} else {
+			lo = mid.Add(mid, big.NewInt(1))
+		}
+	}
+	return lo
+}
+
+var sha256DigestInfoPrefix = []byte{0x30, 0x31, 0x30, 0x0d, 0x06, 0x09, 0x60, 0x86, 0x48, 0x01, 0x65, 0x03, 0x04, 0x02, 0x01, 0x05, 0x00, 0x04, 0x20}
+var sha256DigestInfoPrefixNoNull = []byte{0x30, 0x2f, 0x30, 0x0b, 0x06, 0x09, 0x60, 0x86, 0x48, 0x01, 0x65, 0x03, 0x04, 0x02, 0x01, 0x04, 0x20}
+
+// rsaBlockForgeries: `blob` (a valid signature by anybody) with its first signer entry naming `cert` and the
+// signature VALUE replaced by octets that are NOT an RSASSA-PKCS1-v1_5 SHA-256 signature (RFC 8017 section 8.2.2:
+// the decrypted block has to EQUAL 00 01 FF..FF 00 DigestInfo, DigestInfo with NULL parameters ending the block) but
+// that a verifier decoding the block leniently would take for one:
+//   - made from the PUBLIC key alone when its exponent is small (key == nil suffices): the integer e-th root of a
+//     number that begins with 00 01 FF*8 00 DigestInfo(SHA-256 of the attributes) and continues with whatever the root
+//     leaves there (Bleichenbacher 2006) - with the DigestInfo in its standard form and without the NULL parameters,
+//     with eight, one and no padding octets. No private key is involved at all.
+//   - made with the private key (key != nil) over a block of the right length that is well-formed except for one
+//     thing: octets behind the DigestInfo (padding shortened accordingly); NULL parameters absent; fewer than eight
+//     padding octets behind leading zeros; block type 02; a padding octet that is not FF; non-minimal (BER) lengths in
+//     the DigestInfo; the digest of OTHER attributes in an otherwise perfect block (control: has to fail everywhere).
+//
+// Everything else of the blob is consistent (content, message digest, attributes).
+func rsaBlockForgeries(blob []byte, key *rsa.PrivateKey, cert *x509.Certificate, want func(class string) bool, emit func(class string, b []byte)) {
+	pub, ok := cert.PublicKey.(*rsa.PublicKey)
+	roots, okp := parseDER(blob)
+	if !ok || !okp || len(roots) != 1 {
+		return
+	}
+	k := pub.Size()
+	with := func(class string, sigOf func(h []byte) []byte) {
+		if want != nil && !want(class) {
+			return
+		}
+		r := roots[0].clone()
+		sd := p7SignedDataOf(r)
+		if len(sd.kids) < 4 {
+			return
+		}
+		set := sd.kids[len(sd.kids)-1]
+		if set.tag != 0x31 || len(set.kids) != 1 {
+			return
+		}
+		si := set.kids[0]
+		at := p7SignedAttrs(si)
+		if at == nil || !p7SetIdentity(si, cert) {
+			return
+		}
+		tbs := at.encode()
+		tbs[0] = 0x31
+		h := sha256.Sum256(tbs)
+		sig := sigOf(h[:])
+		if sig == nil || !p7SetSignature(si, sig) {
+			return
+		}
+		emit(class, r.encode())
+	}
+	cat := func(parts ...[]byte) []byte { return bytes.Join(parts, nil) }
+	ff := func(n int) []byte { return bytes.Repeat([]byte{0xff}, n) }
+	if pub.E <= 17 {
+		for _, v := range []struct {
+			name   string
+			prefix []byte
+			pad    int
+		}{
+			{"octets-behind-digest-info", sha256DigestInfoPrefix, 8},
+			{"octets-behind-digest-info/no-null-parameters", sha256DigestInfoPrefixNoNull, 8},
+			{"octets-behind-digest-info/one-padding-octet", sha256DigestInfoPrefix, 1},
+			{"octets-behind-digest-info/no-padding-octets", sha256DigestInfoPrefix, 0},
+		} {
+			v := v
+			with(fmt.Sprintf("forge-rsa-block/from-the-public-key-alone/e=%d/%s", pub.E, v.name), func(h []byte) []byte {
+				head := cat([]byte{0x00, 0x01}, ff(v.pad), []byte{0x00}, v.prefix, h)
+				if len(head) >= k {
+					return nil
+				}
+				lo := new(big.Int).SetBytes(cat(head, make([]byte, k-len(head))))
+				s := intRoot(lo, pub.E)
+				em := make([]byte, k)
+				p := new(big.Int).Exp(s, big.NewInt(int64(pub.E)), nil)
+				if p.Cmp(pub.N) >= 0 || p.BitLen() > 8*k {
+					return nil
+				}
+				p.FillBytes(em)
+				if !bytes.HasPrefix(em, head) {
+					return nil // the root does not leave the chosen octets in place for this key size / exponent
+				}
+				return s.FillBytes(make([]byte, k))
+			})
+		}
+	}
+	if key == nil || key.N.Cmp(pub.N) != 0 {
+		return
+	}
+	raw := func(em []byte) []byte { // the private-key operation on a block of the caller's choice
+		m := new(big.Int).SetBytes(em)
+		if m.Cmp(key.N) >= 0 {
+			return nil
+		}
+		return new(big.Int).Exp(m, key.D, key.N).FillBytes(make([]byte, k))
+	}
+	std := func(di []byte) []byte { return cat([]byte{0x00, 0x01}, ff(k-3-len(di)), []byte{0x00}, di) }
+	for _, v := range []struct {
+		name string
+		em   func(h []byte) []byte
+	}{
+		{"octets-behind-digest-info", func(h []byte) []byte {
+			di := cat(sha256DigestInfoPrefix, h)
+			return cat([]byte{0x00, 0x01}, ff(k-3-len(di)-40), []byte{0x00}, di, bytes.Repeat([]byte{0xa5}, 40))
+		}},
+		{"no-null-parameters", func(h []byte) []byte { return std(cat(sha256DigestInfoPrefixNoNull, h)) }},
+		{"four-padding-octets-behind-leading-zeros", func(h []byte) []byte {
+			di := cat(sha256DigestInfoPrefix, h)
+			return cat(make([]byte, k-7-len(di)), []byte{0x00, 0x01}, ff(4), []byte{0x00}, di)
+		}},
+		{"block-type-02", func(h []byte) []byte {
+			em := std(cat(sha256DigestInfoPrefix, h))
+			em[1] = 0x02
+			return em
+		}},
+		{"padding-octet-not-ff", func(h []byte) []byte {
+			em := std(cat(sha256DigestInfoPrefix, h))
+			em[2+(k-54)/2] = 0xfe
+			return em
+		}},
+		{"ber-lengths-in-digest-info", func(h []byte) []byte {
+			return std(cat([]byte{0x30, 0x81, 0x33, 0x30, 0x81, 0x0d}, sha256DigestInfoPrefix[4:17], []byte{0x04, 0x81, 0x20}, h))
+		}},
+		{"digest-of-other-attributes", func(h []byte) []byte {
+			o := sha256.Sum256(h)
+			return std(cat(sha256DigestInfoPrefix, o[:]))
+		}},
+	} {
+		v := v
+		with("forge-rsa-block/made-with-the-private-key/"+v.name, func(h []byte) []byte { return raw(v.em(h)) })
+	}
+}
+
 // attribute types under which tools carry a whole SignedData in the UNSIGNED attributes of a signer entry
 var nestingAttrOIDs = []struct {
 	name string
@@ -1243,6 +1557,58 @@ func c04Gen(c *Ctx) {
 			serialForgeries(s, func(class string, b []byte) { run(s, class, b, true) })
 		}
 	}
+	// what the signature VALUE holds (rsaBlockForgeries), for signer certificates with the usual public exponent and
+	// with exponent 3: library-signed (detached data, attached SpcIndirectDataContent) and OpenSSL-shaped (attached)
+	// blobs; each genuine blob under its signer's certificate and twins first (a key with exponent 3 signs and
+	// verifies like any other), then every block class under the certificate it names
+	{
+		k1 := poolKey(c, 2048, 1)
+		shapes := certShapes(c)
+		for i, key := range []*rsa.PrivateKey{lowExponentKey(c, 2048, 3), poolKey(c, 2048, 0)} {
+			if !c.Mine(i) {
+				continue
+			}
+			for j, sh := range []certShape{shapes[3], shapes[9]} {
+				right, twin, other := makeRSACert(key, sh), makeRSACert(k1, sh), makeRSACert(k1, shapes[0])
+				var blob []byte
+				switch (i + j) % 2 {
+				case 0:
+					blob, _ = pkcs7.SignPKCS7(key, right, pkcs7.OIDData, []byte("content under an exponent class"))
+				default:
+					blob = buildCMS(key, right, []byte("content under an exponent class"), true, j == 0, true)
+				}
+				if j == 1 && i == 0 {
+					spc, _ := authenticode.CreateSpcIndirectDataContent(bytes.Repeat([]byte{0x3e}, 32), 0)
+					blob, _ = pkcs7.SignPKCS7(key, right, authenticode.OIDSpcIndirectDataContent, spc)
+				}
+				if blob == nil {
+					continue
+				}
+				s := p7Seed{fmt.Sprintf("exponent-class/e=%d/%s", key.E, sh.desc), blob, right, twin, other, true}
+				run(s, "seed", s.blob, true)
+				// the blocks made from the public key alone need no key of the signer: start from a blob somebody else signed
+				foreign := buildCMS(k1, other, []byte("content under an exponent class"), true, false, true)
+				rsaBlockForgeries(foreign, nil, right, nil, func(class string, b []byte) { run(s, class, b, false) })
+				rsaBlockForgeries(s.blob, key, right, func(class string) bool { return strings.Contains(class, "made-with-the-private-key") }, func(class string, b []byte) { run(s, class, b, false) })
+			}
+		}
+	}
+	// the producer configurations of cmsVariantSeeds (other encapsulated content types, further signed attributes,
+	// several signers with a digest algorithm each): the blob itself under every certificate, and the targeted
+	// forgeries for every third of them (the generic mutations run on the seeds above)
+	for vi, s := range cmsVariantSeeds(c) {
+		if !c.Mine(vi) {
+			continue
+		}
+		run(s, "seed", s.blob, true)
+		if vi%3 == 0 || c.Thorough {
+			forgeries(c, s, func(class string, b []byte) {
+				if !strings.HasPrefix(class, "oid-swap") || c.Thorough {
+					run(s, class, b, false)
+				}
+			})
+		}
+	}
 	for si, s := range seeds {
 		if !c.Mine(si) { // thorough tier: the seeds are divided among the shard processes
 			continue
@@ -1258,7 +1624,7 @@ func c04Gen(c *Ctx) {
 
 func init() {
 	register("C04", &PropDef{
-		Rule:   "seeds: library-signed data (detached) and SpcIndirectDataContent blobs under six certificate shapes (one CA-issued with issuer different from subject, one whose own signature is sha384WithRSA, one with a hand-encoded UTF8String/emailAddress name), the sbsign/sbvarsign fixtures of the repository, OpenSSL smime/cms blobs when the CLI is present (including -noattr: signer entries without signed attributes, the signature made directly over the content octets, RFC 2315 section 9.3), OpenSSL-shaped CMS blobs built in the harness (with and without signed attributes, attached and detached); each verified under the signer's certificate, a twin certificate (same issuer and serial, another RSA key), Ed25519 and ECDSA twins (same issuer and serial, no RSA key at all) and an unrelated one. Derived blobs: single-bit/byte changes (quick: 40 stratified positions; thorough: every position of blobs <= 2 KiB), a bit flip inside every DER leaf (signature, digest, integers, OIDs), delete/duplicate/swap of the children of every constructed node, truncations, and targeted forgeries (content, content type, certificates, signer identity, message digest, dropped signed attributes, the signed attributes dropped AND the octets that were signed (their DER SET) moved to where the content is - as the contents octets of an OCTET STRING / of a SEQUENCE / as the SET itself, under the original content type and under data -, so that the genuine signature is one over the content of a blob that has no signed attributes and no message digest at all, every object identifier outside the certificates replaced by each of seven sibling OIDs alone and together with a content change, six two-signer-entry combinations of {names the certificate, names another} x {valid, damaged signature}, six two-signer-entry combinations over replaced content of {names the certificate, names another} x {original attributes, attributes of the same length re-bound to the replaced content (messageDigest := its SHA-256)} under the original signature in both orders - including forged entry first, original attributes second -, the single re-bound entry, the blob consistently re-signed by another key over replaced content,, replaced content with the unauthenticatedAttributes [1] field of the signer entry holding attributes of the types that bind content in the SIGNED set (a lone messageDigest of the replaced content; contentType + signingTime + that messageDigest; a copy of the whole signed set re-bound to the replaced content) under the original signed attributes and signature - and, with the content kept, an unsigned messageDigest of other content, which must change nothing -, the signer entry's serial number re-encoded in every way that keeps 'the same octets' but is another number or no DER (the 00 pad octet of a serial whose leading octet has its top bit set dropped = a negative number, the top bit of the leading octet set, one / two 00 pad octets added, an ff octet added, the number negated, an empty INTEGER) - for every seed and for ten further signer certificates chosen by serial class (top bit of the leading octet set in 1, 2, 3, 8 and 20 octets, all ones, 7f / 7fff without pad, an inner zero octet; library-signed and OpenSSL-shaped blobs alternating) -, and that re-signed blob carrying the genuine one (and the reverse) in every place that can hold a blob: unsigned attributes of a signer entry under the SpcNestedSignature / MS RFC 3161 timestamp / timeStampToken / an unknown attribute type with one and two values, a counter-signature attribute holding the other blob's signer entry, an extra certificate, the CRL field, the content or a further content element, the other blob's signer entries appended / prepended, trailing fields of SignedData and of the content info, a second SignedData). On seeds and targeted forgeries the question is also asked of ONE parsed object that answers for several certificates in turn, in both orders: the twin / unrelated / non-RSA certificate after the signer's certificate (Verify(signer), Verify(this), Verify(signer), Verify(this)) and the signer's certificate after a twin with the same issuer and serial (Verify(twin), Verify(signer), Verify(twin), Verify(signer)); the answer must be the one a fresh object gives. On the same classes (and an eighth of the random mutations) the blob is also verified as the certificate data of an authenticated-variable descriptor (EFIVariableAuthentication2.Verify) and a success there is judged by the Spec as well. Every case is non-trivial; distinct = distinct (blob, certificate).",
+		Rule:   "seeds: library-signed data (detached) and SpcIndirectDataContent blobs under six certificate shapes (one CA-issued with issuer different from subject, one whose own signature is sha384WithRSA, one with a hand-encoded UTF8String/emailAddress name), the sbsign/sbvarsign fixtures of the repository, OpenSSL smime/cms blobs when the CLI is present (including -noattr: signer entries without signed attributes, the signature made directly over the content octets, RFC 2315 section 9.3), OpenSSL-shaped CMS blobs built in the harness (with and without signed attributes, attached and detached); each verified under the signer's certificate, a twin certificate (same issuer and serial, another RSA key), Ed25519 and ECDSA twins (same issuer and serial, no RSA key at all) and an unrelated one. Derived blobs: single-bit/byte changes (quick: 40 stratified positions; thorough: every position of blobs <= 2 KiB), a bit flip inside every DER leaf (signature, digest, integers, OIDs), delete/duplicate/swap of the children of every constructed node, truncations, and targeted forgeries (content, content type, certificates, signer identity, message digest, dropped signed attributes, the signed attributes dropped AND the octets that were signed (their DER SET) moved to where the content is - as the contents octets of an OCTET STRING / of a SEQUENCE / as the SET itself, under the original content type and under data -, so that the genuine signature is one over the content of a blob that has no signed attributes and no message digest at all, every object identifier outside the certificates replaced by each of seven sibling OIDs alone and together with a content change, six two-signer-entry combinations of {names the certificate, names another} x {valid, damaged signature}, six two-signer-entry combinations over replaced content of {names the certificate, names another} x {original attributes, attributes of the same length re-bound to the replaced content (messageDigest := its SHA-256)} under the original signature in both orders - including forged entry first, original attributes second -, the single re-bound entry, the blob consistently re-signed by another key over replaced content,, replaced content with the unauthenticatedAttributes [1] field of the signer entry holding attributes of the types that bind content in the SIGNED set (a lone messageDigest of the replaced content; contentType + signingTime + that messageDigest; a copy of the whole signed set re-bound to the replaced content) under the original signed attributes and signature - and, with the content kept, an unsigned messageDigest of other content, which must change nothing -, the signer entry's serial number re-encoded in every way that keeps 'the same octets' but is another number or no DER (the 00 pad octet of a serial whose leading octet has its top bit set dropped = a negative number, the top bit of the leading octet set, one / two 00 pad octets added, an ff octet added, the number negated, an empty INTEGER) - for every seed and for ten further signer certificates chosen by serial class (top bit of the leading octet set in 1, 2, 3, 8 and 20 octets, all ones, 7f / 7fff without pad, an inner zero octet; library-signed and OpenSSL-shaped blobs alternating) -, and that re-signed blob carrying the genuine one (and the reverse) in every place that can hold a blob: unsigned attributes of a signer entry under the SpcNestedSignature / MS RFC 3161 timestamp / timeStampToken / an unknown attribute type with one and two values, a counter-signature attribute holding the other blob's signer entry, an extra certificate, the CRL field, the content or a further content element, the other blob's signer entries appended / prepended, trailing fields of SignedData and of the content info, a second SignedData). On seeds and targeted forgeries the question is also asked of ONE parsed object that answers for several certificates in turn, in both orders: the twin / unrelated / non-RSA certificate after the signer's certificate (Verify(signer), Verify(this), Verify(signer), Verify(this)) and the signer's certificate after a twin with the same issuer and serial (Verify(twin), Verify(signer), Verify(twin), Verify(signer)); the answer must be the one a fresh object gives. On the same classes (and an eighth of the random mutations) the blob is also verified as the certificate data of an authenticated-variable descriptor (EFIVariableAuthentication2.Verify) and a success there is judged by the Spec as well. Further targeted forgeries on every seed: the encapsulated content replaced by - or, for a detached blob, attached as - an element whose VALUE is empty (30 00, 04 00, 05 00, 31 00) with attributes and signature kept (content is then present and its zero contents octets have to match the signed digest: presence is decided by the element, not by its length); and, where the harness holds the signer's key, the signer entry re-made by that key under another digest algorithm (digestAlgorithm, message digest of the content and RSA PKCS#1 v1.5 signature all under SHA-1 / SHA-384 / SHA-512 - what openssl cms -md ... emits -, and label and hash disagreeing: named SHA-256 / made with SHA-512, named SHA-512 / made with SHA-256): consistent, by the right key, but no RSA-SHA256 signature and no SHA-256 message digest. Signature VALUES and public exponents: library-signed (detached data, attached SpcIndirectDataContent) and OpenSSL-shaped blobs under signer certificates with exponent 65537 and with exponent 3 (self-signed and CA-issued; the genuine blob under signer, twins and a stranger), then a blob naming the exponent-3 certificate whose signature value is the integer cube root of 00 01 FF*n 00 DigestInfo(SHA-256 of the attributes) || free octets (n = 8, 1, 0; DigestInfo with and without NULL parameters), computed from the public key alone, and for both exponents values made with the private key over blocks that deviate from EMSA-PKCS1-v1_5 in one respect (octets behind the DigestInfo, NULL absent, four padding octets behind leading zeros, block type 02, a padding octet not FF, BER lengths in the DigestInfo, digest of other attributes). The producer configurations of C16 (encapsulated content types of 3..38 DER octets, additional signed attributes of every size class, two and three signers with SHA-1 / SHA-256 / SHA-384 / SHA-512 each, attached and detached, the SHA-256 signer first or last) as seeds under every certificate incl. the co-signer's own (whose SHA-1/384/512 entry must not verify), with the targeted forgeries on a third of them. Every case is non-trivial; distinct = distinct (blob, certificate).",
 		Assume: []string{"x509.ParseCertificates and Certificate.CheckSignature are opaque Go library code; RSA/SHA-256 on the model side are the executable Lean implementations, compared with Go's verdict on every case"},
 		Eval:   c04Eval, Gen: c04Gen,
 	})
